@@ -88,7 +88,7 @@ theorem reachable_acc (h : Reachable cfg s) : Acc cfg s := by
 
 /-! ### runs without faults never latch an error -/
 
-theorem nofault_next (hnf : ∀ i, cfg.fault i = false) {l : Label} (hw : wedged s = false)
+theorem nofault_next (hnf : ∀ i, cfg.fault i = false) (hcf : ∀ b, cfg.cfault b = false) {l : Label} (hw : wedged s = false)
     (h : next cfg s l = some (e, t)) : wedged t = false := by
   refine next_cases h ?_ ?_ ?_ ?_
   · intro h
@@ -102,18 +102,20 @@ theorem nofault_next (hnf : ∀ i, cfg.fault i = false) {l : Label} (hw : wedged
   · intro i q _ _ ht; rw [ht]; simpa [wedged] using hw
   · intro it hem _ _ ht; rw [ht]; simp_all [wedged, emFailed]
 
-theorem nofault_reachable (hnf : ∀ i, cfg.fault i = false) (h : Reachable cfg s) : wedged s = false := by
+theorem nofault_reachable (hnf : ∀ i, cfg.fault i = false) (hcf : ∀ b, cfg.cfault b = false) (h : Reachable cfg s) :
+    wedged s = false := by
   induction h with
   | init => rfl
   | step _ hst ih =>
     obtain ⟨l, e, hn⟩ := hst
-    exact nofault_next hnf ih hn
+    exact nofault_next hnf hcf ih hn
 
-theorem output_of_idle (hr : cfg.repaired = true) (hnf : ∀ i, cfg.fault i = false) (h : Reachable cfg s)
+theorem output_of_idle (hr : cfg.repaired = true) (hnf : ∀ i, cfg.fault i = false) (hcf : ∀ b, cfg.cfault b = false)
+    (h : Reachable cfg s)
     (hidle : AllIdle s) : s.out = List.range (seqBlocks cfg.script false) ∧ s.eof = hasClose cfg.script := by
   have hi := reachable_inv hr h
   have ha := reachable_acc h
-  have hw := nofault_reachable hnf h
+  have hw := nofault_reachable hnf hcf h
   have he : s.err = false := by
     simp only [wedged, Bool.or_eq_false_iff] at hw; exact hw.1
   obtain ⟨⟨hapi, hs⟩, hq, hp, hem⟩ := hidle
